@@ -34,15 +34,18 @@ class LoopSpec:
 
 
 class Case:
-    def __init__(self, name, when, ensures, raises=None, ret_ty=None):
+    def __init__(self, name, when, ensures, raises=None, ret_ty=None, no_suspend=False, modifies=None):
         self.name, self.when, self.ensures, self.raises, self.ret_ty = name, when, ensures, raises, ret_ty
+        self.no_suspend = no_suspend  # this exit is reached without passing a suspension point (obligation of the callee)
+        self.modifies = modifies  # frame of this case (overrides the contract's)
 
 
 class Contract:
     """Pre/postconditions by cases, used on both sides: assumed at call sites, checked against the
     callee's own body by the callee's unit."""
 
-    def __init__(self, qualname, requires, cases, modifies=None, bind=None):
+    def __init__(self, qualname, requires, cases, modifies=None, bind=None, suspends=False):
+        self.suspends = suspends  # coroutine that may suspend: other tasks run between call and return
         self.qualname = qualname
         self.requires = requires  # fn(h, a) -> [(name, term)]
         self.cases = cases
@@ -64,13 +67,30 @@ class Contract:
         if w is False or not st.feasible(ip._b(w)):
             raise PathEnd("case infeasible")
         st.assume(ip._b(w))
-        st.havoc(keys=self.modifies)
-        if self.modifies is None and st.writes is not None:
+        ctx.last_case[self.qualname] = case.name
+        if self.suspends and not getattr(case, "no_suspend", False):
+            # the callee may suspend any number of times: the caller's invariant is asserted, the heap is replaced by
+            # an arbitrary one satisfying the invariant (+ rely), then the callee's postcondition is assumed
+            a.case = case.name
+            lib.suspend(ip, "call:" + self.qualname, a)
+            post = H(st)
+            ret = None
+            if case.ret_ty is not None:
+                ret = Sym(st.fresh("ret", case.ret_ty.sort()), case.ret_ty)
+            for name, t in case.ensures(pre, post, a, ret.t if ret is not None else None):
+                st.assume(t)
+            ctx.unit.after_suspending_call(ip, self, a, case)
+            if case.raises is not None:
+                raise PyExc(self.make_exc(ip, case))
+            return ret
+        modifies = case.modifies if case.modifies is not None else self.modifies
+        st.havoc(keys=modifies)
+        if modifies is None and st.writes is not None:
             for ws in st.writes:
                 ws.add(("*", "*"))
         elif st.writes is not None:
             for ws in st.writes:
-                ws.update(self.modifies)
+                ws.update(modifies)
         post = H(st)
         ret = None
         if case.ret_ty is not None:
@@ -78,8 +98,13 @@ class Contract:
         for name, t in case.ensures(pre, post, a, ret.t if ret is not None else None):
             st.assume(t)
         if case.raises is not None:
-            raise PyExc(ExcVal(lib.exc_classes()[case.raises], ()))
+            raise PyExc(self.make_exc(ip, case))
         return ret
+
+    def make_exc(self, ip, case):
+        if case.raises == "CancelledError":
+            return lib.new_cancelled(ip)
+        return ExcVal(lib.exc_classes()[case.raises], ())
 
     def check_exit(self, ip, pre, a, exc, ret, tag):
         """callee side: the actual exit (normal with `ret`, or exception `exc`) must be allowed by a
@@ -108,6 +133,8 @@ class Contract:
                 rt = ip.term(ret, c.ret_ty)
             for name, t in c.ensures(pre, post, a, rt):
                 ctx.oblige(f"{tag}/post:{c.name}.{name}", z3.Implies(w, t), "post")
+            if c.no_suspend:
+                ctx.oblige(f"{tag}/post:{c.name}.reached_without_suspending", z3.Implies(w, z3.BoolVal(ctx.flags["suspended"] == 0)), "post")
 
 
 class Unit:
@@ -203,6 +230,9 @@ class Unit:
 
     def await_model(self, ip, aw):
         return NotImplemented
+
+    def after_suspending_call(self, ip, contract, a, case):
+        pass
 
 
 class ClassSpec:
